@@ -63,6 +63,19 @@ int main() {
         std::string q = unhex(body);
         sep(); out << "H" << (t.has(q.c_str()) ? 1 : 0);
       }
+      else if (k == 'l' || k == 'g') {
+        // explicit (pointer, length) query: the buffer is longer than the length passed
+        size_t c2 = body.rfind(':');
+        std::string buf = unhex(body.substr(0, c2));
+        const int len = std::stoi(body.substr(c2 + 1));
+        if (k == 'l') {
+          occa::trie<int>::result_t r = t.getLongest(buf.c_str(), len);
+          sep(); out << "L(" << (r.success() ? 1 : 0) << "," << r.length << "," << r.value() << ")";
+        } else {
+          occa::trie<int>::result_t r = t.get(buf.c_str(), len);
+          sep(); out << "G(" << (r.success() ? 1 : 0) << "," << r.value() << ")";
+        }
+      }
       else if (k == 'S') { sep(); out << "S" << t.size(); }
       else if (k == 'D') {
         sep();
